@@ -2,7 +2,7 @@
 META = {
     "level": 'fault_enumeration',
     "technique": 'call-log oracle on the real ShareCrawler (and LeaseCheckingCrawler) driven by virtual time: enumerated subsets of time-slice interruption points, restarts at every slice boundary, and process kills at every hook and every file-system step of save_state, each followed by a restart from the state file',
-    "text": 'Runs the real allmydata.storage.crawler.ShareCrawler (recording subclass; service started, slices fired by the virtual reactor) on a fabricated share directory with <=6 buckets over the first, a middle and the last of the 1024 prefixes. storage.crawler.time is a virtual clock that jumps past cpu_slice at chosen points, forcing TimeSliceExceeded there. Enumerated: every subset of interruption points {after each bucket, end of each non-empty prefix and of its neighbour prefixes} for each layout (thorough: all subsets of every layout, up to 2^13, x all 3 restart modes for the <=10-point layouts and a rotating mode for the 13-point ones; quick: all subsets of the <=6-point layouts with a rotating mode, seeded samples of the larger ones), single interruptions at prefix ends across the whole ring, and single kills (crawler object abandoned, new crawler built on the same state file) before/after every process_bucket, in every started_cycle/finished_prefix/finished_cycle hook and at 5 steps inside every save_state (before the temp file is opened, temp file empty, half written, fully written but not renamed, after rename), under 4 interruption schedules; plus seeded multi-fault runs with buckets added/removed mid-cycle. A second family runs the real LeaseCheckingCrawler on real shares and restarts it from its saved state mid-cycle. Oracle per completed cycle: every bucket present throughout is passed to process_bucket exactly once if no kill happened inside a slice of that cycle, at least once otherwise; process_bucket arguments are consistent; last-cycle-finished (get_state() and the JSON state file) advances by exactly one per completed cycle and never goes back.',
+    "text": 'Runs the real allmydata.storage.crawler.ShareCrawler (recording subclass; service started, slices fired by the virtual reactor) on a fabricated share directory with <=6 buckets over the first, a middle and the last of the 1024 prefixes. storage.crawler.time is a virtual clock that jumps past cpu_slice at chosen points, forcing TimeSliceExceeded there. Enumerated: every subset of interruption points {after each bucket, end of each non-empty prefix and of its neighbour prefixes} for each layout (thorough: all subsets of every layout, up to 2^13, x all 3 restart modes for the <=10-point layouts and a rotating mode for the 13-point ones; quick: all subsets of the <=6-point layouts with a rotating mode, seeded samples of the larger ones), single interruptions at prefix ends across the whole ring, and single kills (crawler object abandoned, new crawler built on the same state file) before/after every process_bucket, in every started_cycle/finished_prefix/finished_cycle hook and at 5 steps inside every save_state (before the temp file is opened, temp file empty, half written, fully written but not renamed, after rename), under 4 interruption schedules; plus seeded multi-fault runs with buckets added/removed mid-cycle (not judged) and 4-cycle runs over one or two non-empty prefixes in which buckets are added and removed BETWEEN cycles, while the crawler sleeps (a bucket added there exists throughout the next cycle and is judged), on the same crawler object and across restarts. A second family runs the real LeaseCheckingCrawler on real shares and restarts it from its saved state mid-cycle. Oracle per completed cycle: every bucket present throughout is passed to process_bucket exactly once if no kill happened inside a slice of that cycle, at least once otherwise; process_bucket arguments are consistent; last-cycle-finished (get_state() and the JSON state file) advances by exactly one per completed cycle and never goes back.',
     "note": 'Trusts the recording subclass, the virtual clock shim and the emulation of a crash inside save_state (the harness performs the same open/write/rename sequence as _dump_json_to_file + move_into_place and stops at the chosen step; torn writes below file granularity are C29 territory). Buckets added or removed mid-cycle are not judged.',
 }
 LEVEL = "fault_enumeration"
@@ -66,6 +66,9 @@ class Harness(object):
         self.incarnations = 0
         self.latest_cycle = 0
         self.points_seen = []               # every hook point reached, for kill enumeration
+        self.members = {}                   # cycle -> set of buckets present throughout it (when it differs from static)
+        self.boundary = {}                  # finished cycle -> callable() -> membership of the following cycles
+        self.max_lcf = -1
 
     # ---- called from the crawler hooks
     def point(self, cycle, kind, arg):
@@ -167,7 +170,20 @@ class Harness(object):
                     self.problems.append(("state-file-unreadable", "state file %s: %s" % (os.path.basename(name), e)))
                 break
         self.lcf_seq.append((v, fv))
+        # between two cycles (crawler asleep, nothing in progress): scripted additions/removals of buckets.
+        # A bucket added here exists throughout the next cycle and is judged there.
+        while self.max_lcf < v:
+            self.max_lcf += 1
+            act = self.boundary.pop(self.max_lcf, None)
+            if act is not None:
+                self.members[self.max_lcf + 1] = set(act())
+                self.ck.hit("buckets-changed-between-cycles")
         return v
+
+    def expected(self, cycle):
+        ks = [k for k in self.members if k <= cycle]
+        base = self.members[max(ks)] if ks else self.static
+        return set(base) - self.dynamic
 
     def slice(self):
         """Fire the crawler's pending timer: one time slice.  Returns False after a kill."""
@@ -225,15 +241,20 @@ class Harness(object):
                 if prefix != si[:2] or prefixdir != os.path.join(self.sharedir, prefix):
                     out.append(("process-bucket-wrong-arguments",
                                 "process_bucket(%r, %r, %r, %r)" % (cycle, prefix, prefixdir, si)))
-                if si not in self.static and si not in self.dynamic:
+                if si not in self.static and si not in self.dynamic and \
+                        not any(si in m for m in self.members.values()):
                     out.append(("process-bucket-on-nonexistent-bucket", "bucket %r never existed" % (si,)))
+                elif self.members and si not in self.expected(cycle) and si not in self.dynamic:
+                    ck.observe("processed-a-bucket-removed-before-the-cycle")
         finished = max([v for v, _ in self.lcf_seq] or [-1])
         for cycle in range(0, finished + 1):
             cnt = per_cycle.get(cycle, {})
             killed = cycle in self.tainted
-            for si in sorted(self.static):
+            for si in sorted(self.expected(cycle)):
                 n = cnt.get(si, 0)
                 ck.mon("coverage-oracle")
+                if self.members and si not in self.static:
+                    ck.hit("bucket-added-between-cycles-judged")
                 if n == 0:
                     out.append(("bucket-skipped-in-cycle" + ("-after-kill" if killed else ""),
                                 "cycle %d completed without process_bucket(%s)" % (cycle, si)))
@@ -539,6 +560,66 @@ def run(ck):
             return [p for p in pts if p[0] == "prefix-end"]
         return pts[::2]
 
+    # ------------------------------------------------------------ E6 buckets added/removed BETWEEN cycles
+    # one or two non-empty prefixes, 4 cycles, membership changes only while the crawler sleeps between two
+    # cycles: every bucket present at the start of a cycle exists throughout it and is judged
+    NEWNAME = {"first": "222222222222222222222222", "middle": "dddddddddddddddddddddddd",
+               "last": "yyyyyyyyyyyyyyyyyyyyyyyy"}
+    e6_layouts = [(2, 0, 0), (0, 2, 0), (0, 0, 2), (1, 0, 0), (0, 0, 1), (0, 3, 0), (0, 0, 0),
+                  (1, 1, 0), (1, 0, 1), (0, 2, 1)]
+    for li, layout in enumerate(e6_layouts):
+        nonempty = [pfx for pfx, n in zip(P3, layout) if n] or [P3[1]]
+        empty = [pfx for pfx, n in zip(P3, layout) if not n]
+        for wi, where in enumerate(("first", "middle", "last", "other-prefix")):
+            for sched in ("none", "after-every-bucket"):
+                # the same crawler object always; in quick one of the two restart modes for every other plan
+                quick_modes = (None,) + ((MODES[1 + li % 2],) if (li + wi) % 2 else ())
+                for mode in (quick_modes if ck.tier == "quick" else MODES):
+                    if not mine():
+                        continue
+                    if (not ck.more(min_cases=10 ** 9)):
+                        break
+                    site = Site(layout)
+                    try:
+                        h = site.harness()
+                        if where == "other-prefix":
+                            b1 = (empty or nonempty)[0] + NEWNAME["middle"]
+                        else:
+                            b1 = nonempty[0] + NEWNAME[where]
+                        b2 = nonempty[-1] + "eeeeeeeeeeeeeeeeeeeeeeee"
+                        gone = site.buckets[0] if site.buckets else None
+                        cur = set(site.buckets)
+
+                        def after0(site=site, cur=cur, b1=b1):
+                            site.add_bucket(b1)
+                            cur.add(b1)
+                            return cur
+
+                        def after1(site=site, cur=cur, b2=b2, gone=gone):
+                            site.add_bucket(b2)
+                            cur.add(b2)
+                            if gone is not None:
+                                site.remove_bucket(gone)
+                                cur.discard(gone)
+                            return cur
+
+                        def after2(site=site, cur=cur, b1=b1):
+                            site.remove_bucket(b1)
+                            cur.discard(b1)
+                            return cur
+                        h.boundary = {0: after0, 1: after1, 2: after2}
+                        if sched == "after-every-bucket":
+                            for cyc in range(5):
+                                for b in list(site.buckets) + [b1, b2]:
+                                    h.jumps.add((cyc, "after-bucket", b))
+                        plan = {"family": "between-cycles", "layout": layout, "add_after_cycle_0": b1,
+                                "add_after_cycle_1": b2, "remove_after_cycle_1": gone, "remove_after_cycle_2": b1,
+                                "schedule": sched, "restart_mode": mode}
+                        guarded(h, "between-cycles", ("b", layout, where, sched, mode), plan,
+                                lambda h, mode=mode: h.run_until(4, mode))
+                    finally:
+                        site.close()
+
     # ------------------------------------------------------------ E5 LeaseCheckingCrawler restarted mid-cycle
     from allmydata.storage.server import StorageServer
     from twisted.internet.task import Clock
@@ -724,6 +805,7 @@ def run(ck):
     ck.require_monitor("coverage-oracle", "cycle-number-oracle")
     ck.require_reach("time-slice-forced", "kill-inside-slice", "kill-inside-save-state",
                      "restart-after-stopService", "restart-after-kill-while-sleeping",
+                     "buckets-changed-between-cycles", "bucket-added-between-cycles-judged",
                      "duplicate-work-after-kill", "lease-checker-family")
 
 
